@@ -258,8 +258,11 @@ func (n *nodeSim) checkSettled(where string) {
 		if !inStore {
 			tr.absentEpoch = n.epoch
 		}
+		if bi, pend := items[tr.spec.Tag]; pend && tr.via != "deliver" {
+			tr.assignedID = bi.BId.String()
+		}
 		if tr.localDst || tr.refused != "" || tr.dupOf != 0 {
-			if tr.refused != "" && tr.refused != "expired-on-arrival" && tr.dupOf == 0 {
+			if tr.refused == "unknown-block-delete" && tr.dupOf == 0 {
 				// C06: a refused bundle is dropped from the store
 				if _, ok := items[tr.spec.Tag]; ok {
 					n.res.Violate("C06", "refused-dropped", "refused-bundle-kept-pending/"+tr.refused, "%s was refused (%s) but is still pending in the store", tr.spec.Tag, tr.refused)
@@ -351,6 +354,35 @@ func (n *nodeSim) checkSettled(where string) {
 		}
 	}
 	n.checkIDs(items)
+	n.checkLocalReports()
+}
+
+// checkLocalReports: administrative records generated by the node that ended up with a local
+// agent or pending in the store are judged like those seen on the wire (C15).
+func (n *nodeSim) checkLocalReports() {
+	for _, ag := range n.allAgents {
+		for _, b := range ag.received() {
+			if b.IsAdministrativeRecord() {
+				bb := b
+				n.judgeReport(&bb, "delivered to local agent "+ag.name)
+			}
+		}
+	}
+	if n.core == nil {
+		return
+	}
+	bis, err := n.core.store.QueryPending()
+	if err != nil {
+		return
+	}
+	for _, bi := range bis {
+		if len(bi.Parts) == 0 {
+			continue
+		}
+		if b, err := bi.Parts[0].Load(); err == nil && b.IsAdministrativeRecord() {
+			n.judgeReport(&b, "pending in the store")
+		}
+	}
 }
 
 func (n *nodeSim) sameMsSibling(tr *btrack) bool {
@@ -424,6 +456,34 @@ func (n *nodeSim) finale() {
 					n.res.Violate("C05", "I6-failure-bookkeeping", sig, "%s is retained, p%d is connected and never got it, a fault-free retry interval passed, still no transmission (failed sends so far: %d)", tr.spec.Tag, ps.idx, failed)
 				}
 			}
+		}
+	}
+	// C06: refused bundles are dropped once a dispatch had the chance to notice; C15: a bundle
+	// reported as deleted is gone
+
+	for i := 0; i < len(n.ex.Bundles); i++ {
+		tr := n.tracks[i]
+		if tr == nil || tr.dupOf != 0 {
+			continue
+		}
+		_, pend := items[tr.spec.Tag]
+		_, byID := n.storeItem(tr.id)
+		// a dispatch notices the exceeded hop limit only if it gets as far as forwarding: some
+		// connected peer other than the previous node (and no sensor) must have been available
+		eligible := false
+		for _, ps := range n.peers[1:] {
+			if n.connected(ps.idx) && !ps.sensor && ps.idx != tr.spec.Prev {
+				eligible = true
+			}
+		}
+		if tr.refused == "hop-limit" && eligible && !tr.localDst && (pend || (byID && tr.via == "deliver")) {
+			n.res.Violate("C06", "refused-dropped", "hop-limit-exceeded-bundle-kept", "%s (count %d, limit %d) is still in the store after a fault-free retry interval with a connected peer", tr.spec.Tag, tr.spec.HopCount, tr.spec.HopLimit)
+		}
+		if n.expired(tr, 11*time.Minute) && (pend || (byID && tr.via == "deliver")) {
+			n.res.Violate("C06", "expired-dropped", "expired-bundle-kept-past-cleaning", "%s expired %v ago and is still in the store", tr.spec.Tag, time.Since(tr.expiry))
+		}
+		if tr.reportedDeleted && (pend || (byID && tr.via == "deliver")) && tr.reinjected == 0 {
+			n.res.Violate("C15", "truthful", "untrue-report/deleted", "%s was reported deleted but is still in the store", tr.spec.Tag)
 		}
 	}
 	n.res.Nontrivial = len(n.sends) > 0 && (len(n.res.Faults) > 0 || n.res.Probes["sched_choice_among_many"] > 0)
